@@ -157,9 +157,35 @@ func (p *Prog) u1Safe(info *types.Info, fd *ast.FuncDecl, parents map[ast.Node]a
 				continue
 			}
 			// decode routines: (dec *Decoder, p interface{}, tag byte) / (dec, t reflect.Type, p interface{}) / converters' destination (last)
-			name := pv.Name()
-			if name == "p" && (i == len(params)-1 || i == len(params)-2) {
-				return true, "the destination parameter p of a decode routine (always a pointer to the destination)"
+			// the destination of a decode routine or converter, by the shape of the signature (not by its name): an
+			// interface{} parameter that is last, or followed only by the tag byte; of two interface{} parameters
+			// (converters: source, destination) the second
+			if it, ok := pv.Type().Underlying().(*types.Interface); ok && it.Empty() {
+				last := i == len(params)-1
+				beforeTag := i == len(params)-2 && func() bool {
+					b, ok := params[i+1].Type().Underlying().(*types.Basic)
+					return ok && b.Kind() == types.Uint8
+				}()
+				laterIface := false
+				for _, q := range params[i+1:] {
+					if qt, ok := q.Type().Underlying().(*types.Interface); ok && qt.Empty() {
+						laterIface = true
+					}
+				}
+				hasDecoder := false
+				for _, q := range params {
+					if strings.HasSuffix(q.Type().String(), "io.Decoder") {
+						hasDecoder = true
+					}
+				}
+				if fd.Recv != nil && !hasDecoder {
+					if rt := info.TypeOf(fd.Recv.List[0].Type); rt != nil && strings.HasSuffix(rt.String(), "io.Decoder") {
+						hasDecoder = true
+					}
+				}
+				if (last || beforeTag) && !laterIface && hasDecoder {
+					return true, "the destination parameter of a decode routine (always a pointer to the destination)"
+				}
 			}
 		}
 	}
